@@ -143,16 +143,7 @@ def c02(sink, tg, wd, stubs, cur, s, lo, hi, tag=None):
             sink.note("fits_unreachable")
             return
         zfit = [] if fits is True else [E._b(fits).z3(e)]
-        r = e._check(*(zfit + cons + [z3.Not(good)]))
-        e.stats.checks += 1
-        if r == z3.unsat:
-            e.stats.checks_unsat += 1
-        elif r == z3.sat:
-            e.stats.checks_sat += 1
-            e.findings.append(dict(check="kkt-optimal", inputs={k: str(v) for k, v in e._model_to_base(e.solver.model()).items()}, deferred=len(e.deferred), info=tag, prefix=[]))
-        else:
-            e.stats.checks_unknown += 1
-            e.stats.gaps.append("unknown on kkt-optimal")
+        e.check_z3("kkt-optimal", zfit + cons, z3.Not(good), info=tag)
     # corollary: enough room around every target => nothing moves (cur = round(target))
     room = And(*[tg[k + 1] - tg[k] >= gaps[k] for k in range(m - 1)])
     if lo is not None:
